@@ -411,7 +411,7 @@ fn data_words(env: &Env, rep: &mut Report, t: &mut Trace, si: usize, nshards: us
 pub fn run(env: &Env) -> Report {
     let lay = mk_layouts(env);
     let nshards = 16;
-    let (nhist, hlen) = if env.quick() { (40usize, 30usize) } else { (1500, 60) };
+    let (nhist, hlen) = if env.quick() { (40usize, 30usize) } else { (600, 60) };
     let seed = env.a.seed;
     let reps = par_map(nshards, |si| {
         let mut rep = Report::new("c01");
@@ -423,7 +423,7 @@ pub fn run(env: &Env) -> Report {
             let l = if h % 10 == 9 { hlen * 4 } else { hlen };
             history(env, &mut rep, &mut t, &lay, &mut rng, &format!("c01-{}-{}", si, h), l);
         }
-        systematic(env, &mut rep, &mut t, &lay, si, nshards, if env.quick() { 4 } else { 32 }, seed);
+        systematic(env, &mut rep, &mut t, &lay, si, nshards, if env.quick() { 4 } else { 16 }, seed);
         data_words(env, &mut rep, &mut t, si, nshards);
         selection_pass(env, &mut rep, &mut t, si, nshards);
         learn_retype_pass(env, &mut rep, &mut t, si, nshards);
